@@ -409,6 +409,11 @@ def trim_cases(seed, count, repo_import, ai_mod, pysam, hdr):
             pieces = [(kind, rng.choice((8, 12, 17, 20, 30))) for _ in range(rng.randint(2, 4))]
             if rng.random() < 0.5:
                 pieces.append(("R", rng.randint(3, 8))) if kind == "T" else pieces.insert(0, ("R", rng.randint(3, 8)))
+        if not degenerate and rng.random() < 0.04:
+            # a T-run exon, a 5-6 base middle exon that reads like the end of the head AND the start of the tail, an A-run exon
+            pieces = [("T", rng.choice((20, 30))), ("L" + rng.choice(("AATTT", "AATTTT", "AAATTT")), 0), ("A", rng.choice((30, 40)))]
+            pieces[1] = (pieces[1][0], len(pieces[1][0]) - 1)
+            degenerate = True
         # partial fake exons: real prefix then A's
         mix_right = n_a and rng.random() < 0.5
         mix_left = n_t and rng.random() < 0.5
@@ -423,6 +428,8 @@ def trim_cases(seed, count, repo_import, ai_mod, pysam, hdr):
             cigar.append((0, L))
             if kind == "R":
                 seq.append(rand_seq(L))
+            elif kind.startswith("L"):
+                seq.append(kind[1:])
             elif kind == "A":
                 pre = rng.randint(1, min(10, L - 1)) if (mix_right and L > 2) else 0
                 seq.append(rand_seq(pre) + "A" * (L - pre))
